@@ -95,6 +95,35 @@ func c07BuildPool(verifSeed int64) []*sbom.Document {
 			e.Type = sbom.Edge_Type(4444)
 		}
 	})
+	h(func(d *sbom.Document) { // negative enum numbers, one value per list
+		for _, n := range d.NodeList.Nodes {
+			n.PrimaryPurpose = []sbom.Purpose{sbom.Purpose(-3)}
+			n.Hashes = map[int32]string{-5: "deadbeef"}
+			n.Identifiers = map[int32]string{-2: "x"}
+			n.ExternalReferences = []*sbom.ExternalReference{{Url: "u", Type: sbom.ExternalReference_ExternalReferenceType(-9), Hashes: map[int32]string{-1: "aa"}}}
+		}
+	})
+	h(func(d *sbom.Document) {
+		for _, n := range d.NodeList.Nodes {
+			n.Type = sbom.Node_NodeType(-1)
+		}
+		for _, e := range d.NodeList.Edges {
+			e.Type = sbom.Edge_Type(-4)
+		}
+		t := sbom.DocumentType_SBOMType(-6)
+		d.Metadata.DocumentTypes = []*sbom.DocumentType{{Type: &t}}
+	})
+	h(func(d *sbom.Document) { // a root listed twice, an edge without ends, thousands of targets and roots
+		d.NodeList.RootElements = append(d.NodeList.RootElements, d.NodeList.RootElements...)
+		d.NodeList.Edges = append(d.NodeList.Edges, &sbom.Edge{Type: sbom.Edge_contains, From: "", To: []string{""}})
+	})
+	h(func(d *sbom.Document) {
+		e := &sbom.Edge{Type: sbom.Edge_dependsOn, From: d.NodeList.Nodes[0].Id}
+		for i := 0; i < 3000; i++ {
+			e.To = append(e.To, d.NodeList.Nodes[i%len(d.NodeList.Nodes)].Id)
+		}
+		d.NodeList.Edges = append(d.NodeList.Edges, e)
+	})
 	h(func(d *sbom.Document) {
 		for _, n := range d.NodeList.Nodes {
 			n.Id = ""
@@ -269,10 +298,9 @@ func execC07(sc *core.Scenario) *core.Result {
 	trv0 := verifsim.ClockTravelled()
 	sr := runTasks(sc.Sched, recs, func(rec *opRec) func() string {
 		op := rec.Op
-		doc := proto.Clone(docs[op.D%len(docs)]).(*sbom.Document)
-		if sp.Docs[op.D%len(docs)] == "" {
-			doc = &sbom.Document{}
-		}
+		// the same document object serves every call of the history that names it ("serializing the
+		// same document twice"): a serializer that edits its operand shows up as order dependence
+		doc := docs[op.D%len(docs)]
 		return func() string {
 			w := writer.New()
 			s := &sink{}
